@@ -133,6 +133,42 @@ def integer_containers(ctx, r, n_rounds):
                     check(ctx, x, xvals, kname, k, case, True)
 
 
+def rows_of_values(ctx):
+    """x holding a 2-d numpy container (rows of values): k as a number, as an array of the same shape, and as one value
+    per column - the result keeps x's quantity (reciprocal for k / x) and holds what numpy computes for the stored values."""
+    import numpy as np
+    from barril.units import Array, FixedArray
+
+    base = np.array([[1.0, 2.0, 4.0], [8.0, 0.5, 10.0]])
+    ks = [("float", 2.5), ("np.float64", np.float64(0.5)), ("ndarray of the same shape", np.array([[2.0, 4.0, 8.0], [1.0, 0.5, 5.0]])), ("ndarray, one value per column", np.array([2.0, 4.0, 8.0])), ("int", 3)]
+    for cls, mk in (("Array", lambda v, u: Array(v, u)), ("FixedArray", lambda v, u: FixedArray(2, v, u))):
+        for u in ("m", "degC", "kg"):
+            x = mk(base.copy(), u)
+            q = x.GetQuantity()
+            for kname, k in ks:
+                for label, fn, keeps in FORMS:
+                    ctx.ev()
+                    ctx.nt((cls, "2-d ndarray", u, kname, label))
+                    case = {"x": repr(x)[:120], "class": cls, "container": "2-d ndarray", "k_kind": kname, "form": label}
+                    try:
+                        r = fn(x, k)
+                        want = VALUE_OPS[label](base, k)
+                    except Exception as e:
+                        ctx.violation("raised:%s:%s:%s" % (cls, label, kname), dict(case, error="%s: %s" % (type(e).__name__, str(e)[:160])), replay=case)
+                        continue
+                    if not isinstance(r, type(x)):
+                        ctx.violation("unit-stripped:%s:%s:%s" % (cls, label, kname), dict(case, got_type=type(r).__name__), replay=case)
+                        continue
+                    if keeps and r.GetQuantity() != q:
+                        ctx.violation("quantity-changed:%s:%s" % (cls, label), dict(case, got=repr(r.GetQuantity()), want=repr(q)), replay=case)
+                    got = np.asarray(r.GetValues(), dtype=float)
+                    if got.shape != np.asarray(want).shape or not np.array_equal(got, np.asarray(want, dtype=float)):
+                        ctx.violation("value:%s:%s:%s" % (cls, label, kname), dict(case, got=repr(got)[:160], want=repr(want)[:160]), replay=case)
+            ctx.ev()
+            if not np.array_equal(np.asarray(x.GetValues()), base):
+                ctx.violation("operand-changed:2-d ndarray", {"class": cls, "unit": u})
+
+
 def exponent_families(ctx, r, n_families):
     """One process, quantities that differ *only in one exponent* (u/v, u/v2, u/v3, 1/v, 1/v2, u2/v ...), every
     number form applied to each in turn and again in reverse order: whatever a previous operand left behind
@@ -258,6 +294,8 @@ def run(ctx):
             if i < 2 and ctx.shard == 0:
                 ctx.sample({"x": programs.render(spec), "quantity_kind": qkind, "length": n})
         integer_containers(ctx, ctx.rng("ints"), 6 if ctx.tier == "quick" else 80)
+        if ctx.shard == 0:
+            rows_of_values(ctx)
         exponent_families(ctx, ctx.rng("families"), 12 if ctx.tier == "quick" else 150)
     ctx.inconclusive_if(ctx.counters.get("operands that could not be built", 0) > n_rounds, "barril refused to build %d valid operands" % ctx.counters.get("operands that could not be built", 0))
     ctx.inconclusive_if(probe.COUNTS["Array.__rmul__"] == 0, "Array operators never reached")
